@@ -131,6 +131,26 @@ def t_pair(pair, D, N, order, seed):
     elif pair == "allen_cahn":
         s = R.AllenCahn(D, L, N, dt, diffusivity=nu, first_order_coefficient=0.9, third_order_coefficient=-1.1, **kw)
         g = G.GeneralPolynomialStepper(D, L, N, dt, linear_coefficients=(0.9 / D, 0.0, nu), polynomial_coefficients=(0.0, 0.0, 0.0, -1.1), dealiasing_fraction=0.5, **kw)
+    elif pair == "swift_hohenberg":     # 1D only (in D >= 2 the squared Laplacian has mixed terms the generic symbol does not)
+        r, kc, poly = 0.7, (0.6, 1.5, 1.0)[seed % 3], (0.0, 0.0, 1.0, -1.0)
+        s = R.SwiftHohenberg(D, L, N, dt, reactivity=r, critical_number=kc, polynomial_coefficients=poly, **kw)
+        g = G.GeneralPolynomialStepper(D, L, N, dt, linear_coefficients=(r - kc**2, 0.0, -2.0 * kc, 0.0, -1.0), polynomial_coefficients=poly,
+                                       dealiasing_fraction=0.5, **kw)
+    elif pair in ("nonlinear_quadratic", "nonlinear_convection", "nonlinear_gradient_norm", "fisher_nonlinear"):
+        lin = (0.1 / D, 0.0, nu)
+        if pair == "nonlinear_quadratic":
+            s = G.GeneralNonlinearStepper(D, L, N, dt, linear_coefficients=lin, nonlinear_coefficients=(b, 0.0, 0.0), **kw)
+            g = G.GeneralPolynomialStepper(D, L, N, dt, linear_coefficients=lin, polynomial_coefficients=(0.0, 0.0, b), **kw)
+        elif pair == "nonlinear_convection":
+            s = G.GeneralNonlinearStepper(D, L, N, dt, linear_coefficients=lin, nonlinear_coefficients=(0.0, b, 0.0), **kw)
+            g = G.GeneralConvectionStepper(D, L, N, dt, linear_coefficients=lin, convection_scale=-b, single_channel=True, conservative=True, **kw)
+        elif pair == "nonlinear_gradient_norm":
+            s = G.GeneralNonlinearStepper(D, L, N, dt, linear_coefficients=lin, nonlinear_coefficients=(0.0, 0.0, b), **kw)
+            g = G.GeneralGradientNormStepper(D, L, N, dt, linear_coefficients=lin, gradient_norm_scale=-b, **kw)
+        else:
+            r = 0.8
+            s = R.FisherKPP(D, L, N, dt, diffusivity=nu, reactivity=r, **kw)
+            g = G.GeneralNonlinearStepper(D, L, N, dt, linear_coefficients=(r / D, 0.0, nu), nonlinear_coefficients=(-r, 0.0, 0.0), **kw)
     elif pair == "ns_vorticity":
         s = S.NavierStokesVorticity(D, L, N, dt, diffusivity=nu, drag=-0.2, vorticity_convection_scale=b, **kw)
         g = G.GeneralVorticityConvectionStepper(D, L, N, dt, linear_coefficients=(-0.2 / D, 0.0, nu), vorticity_convection_scale=b, **kw)
@@ -146,7 +166,8 @@ def t_pair(pair, D, N, order, seed):
 
 
 LINEAR_PAIRS = ["advection", "diffusion", "advection_diffusion", "dispersion", "hyper_diffusion"]
-NONLIN_PAIRS = ["burgers", "burgers_single", "burgers_conservative", "kdv", "ks_conservative", "ks", "fisher", "allen_cahn"]
+NONLIN_PAIRS = ["burgers", "burgers_single", "burgers_conservative", "kdv", "ks_conservative", "ks", "fisher", "allen_cahn",
+                "nonlinear_quadratic", "nonlinear_convection", "nonlinear_gradient_norm", "fisher_nonlinear", "swift_hohenberg"]
 
 
 def t_normalized(family, D, N, order, seed, s=1.0, t=1.0):
@@ -248,7 +269,7 @@ def witness(ctx):
         for p in LINEAR_PAIRS:
             ctx.check("pair", dict(pair=p, D=D, N=N, order=0, seed=ctx.seed))
         for p in NONLIN_PAIRS:
-            if p == "ks_conservative" and D > 1 and not deep:
+            if (p == "ks_conservative" and D > 1 and not deep) or (p == "swift_hohenberg" and D > 1):
                 continue
             for order in ((2,) if not deep else (1, 2, 3, 4)):
                 ctx.check("pair", dict(pair=p, D=D, N=N, order=order, seed=ctx.seed))
